@@ -166,16 +166,22 @@ class AbstractExcelInPython(ABC):
 
     @staticmethod
     def _regexp(pattern: str):
-        pattern_flags = r'(?<![~])[?]+|[*]+'
-        for item in re.finditer(pattern_flags, pattern):
-            match item:
-                case item if '?' in item.group():
-                    pattern = pattern.replace(item.group(), '.' + '{' + str(item.span()[1]-item.span()[0]) + '}', 1)
-                case item if '*' in item.group():
-                    pattern = pattern.replace(item.group(), '.*', 1)
-        pattern = re.sub(r'(?<=~)[?*]', r'\\\g<0>', pattern)
-        pattern = re.sub(r'[\[\]]', r'\\\g<0>', pattern)
-        return pattern
+        # ? stands for one character, * for any run, ~ makes the next ? * or ~ literal; any other character stands for itself
+        result = ''
+        position = 0
+        while position < len(pattern):
+            char = pattern[position]
+            if char == '~' and position + 1 < len(pattern) and pattern[position + 1] in '?*~':
+                position += 1
+                result += re.escape(pattern[position])
+            elif char == '?':
+                result += '.'
+            elif char == '*':
+                result += '.*'
+            else:
+                result += re.escape(char)
+            position += 1
+        return result
 
     @staticmethod
     def _binary_search(arr: List, lookup_value: any, reverse: bool = False):
